@@ -248,3 +248,56 @@ Theorem C16_value_key_is_source : forall (cf : cfg) (borrowed : bool) (k : kty) 
 Proof. exact (@VdeSrc.de_value_key_is_source). Qed.
 Print Assumptions C16_value_key_is_source.
 
+From Coq Require Import Lia ZifyBool ZifyNat ZifyN.
+From SJ Require Import Base.Bytes Base.Utf8 Base.FloatB Gen.Tables
+  Model.Read Model.Str Model.Num Model.Value Model.De Model.NumberM Model.DeTyped Model.ValueDe Model.NumberTarget
+  Spec.Syntax Spec.Denote.
+From SJ Require Import Proofs.NumInt Proofs.GrammarNum Proofs.ApNumber Proofs.SerValue Proofs.ValueDeAgreeAp Proofs.ValueDeAgreeApValue
+  Proofs.NumberTargetFinite.
+From SJ Require Spec.Layout Proofs.SerToValueAp.
+From Flocq Require Import Core BinarySingleNaN.
+From SJ Require Import Proofs.NumberTargetProps.
+Theorem C16_number_target_agree : forall e fx inp v, arbitrary_precision (cf e) = false ->
+  from_input e inp = Ok v ->
+  match number_from_value (cf e) fx v with
+  | VOk n => number_from_text e inp = VOk n
+  | VErr (Message k) _ _ => exists line col, number_from_text e inp = VErr (Message k) line col
+  | _ => False
+  end.
+Proof. exact (@NumberTargetProps.number_target_agree). Qed.
+Print Assumptions C16_number_target_agree.
+
+Theorem C16_number_target_agree_ap : forall e fx inp v, arbitrary_precision (cf e) = true ->
+  from_input e inp = Ok v -> (forall l, v <> VObj l) ->
+  match v with
+  | VNum n =>
+    exists s, n = NLit s /\ Layout.number_text_ok s = true
+              /\ number_from_text e inp = VOk (NLit s)
+              /\ number_from_value (cf e) fx v = VOk (NLit (respell_lit fx s))
+  | _ => number_from_value (cf e) fx v = VErr (Message MInvalidType) 0 0
+         /\ exists line col, number_from_text e inp = VErr (Message MInvalidType) line col
+  end.
+Proof. exact (@NumberTargetProps.number_target_agree_partial). Qed.
+Print Assumptions C16_number_target_agree_ap.
+
+Theorem C16_number_target_value_is_identity : forall cf fx n, arbitrary_precision cf = false -> value_num_ok n = true ->
+  number_from_value cf fx (VNum n) = VOk n.
+Proof. exact (@NumberTargetProps.number_target_value_is_identity). Qed.
+Print Assumptions C16_number_target_value_is_identity.
+
+Theorem C16_number_target_value_ap_respell : forall cf fx s, arbitrary_precision cf = true -> Layout.number_text_ok s = true ->
+  number_from_value cf fx (VNum (NLit s)) = VOk (NLit (respell_lit fx s)).
+Proof. exact (@NumberTargetProps.number_target_value_ap_respell). Qed.
+Print Assumptions C16_number_target_value_ap_respell.
+
+Theorem C16_number_target_text_is_value : forall e inp, arbitrary_precision (cf e) = false ->
+  (forall n, number_from_text e inp = VOk n <-> from_input e inp = Ok (VNum n))
+  /\ (forall v, from_input e inp = Ok v -> is_number v = false ->
+        exists s1, parse_value (value_fuel inp) e (init_st inp) = Ok (v, s1)
+                /\ number_from_text e inp = vres_of_res inp (Err (Message MInvalidType) (invalid_type_at e inp v s1)))
+  /\ (forall c i, from_input e inp = Err c i ->
+        number_from_text e inp = vres_of_res inp (Err c i)
+        \/ exists j, number_from_text e inp = vres_of_res inp (Err (Message MInvalidType) j)).
+Proof. exact (@NumberTargetProps.number_target_text_is_value). Qed.
+Print Assumptions C16_number_target_text_is_value.
+
